@@ -31,6 +31,9 @@ def model_check(ctx):
     ctx.mc_expect("MC_Writers", "DEV_Writers_2.cfg", "PropOwnInputs")
     ctx.mc_expect("MC_Writers", "DEV_Writers_3.cfg", "PropOwnInputs")
     ctx.mc_expect("MC_Writers", "DEV_Writers_4.cfg", "PropOwnInputs")
+    if ctx.thorough:      # unbounded histories: inductive invariant of spec/APA_Writers.tla checked by Apalache (crv/apalache.py)
+        from crv import apalache
+        apalache.append_run(ctx, "APA_Writers")
 
 
 def cases(ctx):
